@@ -23,11 +23,11 @@ OUT = os.environ.get("HIVESIM_OUT_DIR") or VERIF   # evidence/ and replays/ go h
 DEFAULT_SEED = 20260926
 
 BUDGET = {
-    # property: (quick runs, thorough runs)
-    "C02": (1600, 30000), "C03": (1400, 25000), "C04": (1800, 30000), "C05": (1400, 25000), "C06": (1100, 16000),
-    "C07": (1600, 30000), "C08": (1000, 16000), "C09": (500, 8000), "C10": (1200, 20000), "C11": (1500, 25000),
-    "C12": (1300, 22000), "C16": (700, 10000), "C17": (1400, 25000), "C18": (1000, 18000), "C19": (900, 14000),
-    "C20": (500, 8000),
+    # property: (quick runs, thorough runs); quick is sized for roughly 30-60 s on 16 idle cores
+    "C02": (1800, 36000), "C03": (2000, 40000), "C04": (2500, 50000), "C05": (2000, 40000), "C06": (1800, 30000),
+    "C07": (1800, 36000), "C08": (3000, 60000), "C09": (1200, 20000), "C10": (1300, 26000), "C11": (3000, 60000),
+    "C12": (2000, 40000), "C16": (1200, 20000), "C17": (1800, 36000), "C18": (1800, 36000), "C19": (1400, 25000),
+    "C20": (900, 15000),
 }
 
 
@@ -80,7 +80,24 @@ def summarise(run, orc, plan):
         "plan_digest": digest((plan["spec"], plan["run"], sorted(plan["ops"].items()))),
         "aborted": run.aborted,
         "size": plan_size(plan),
+        "sample": compact(plan),
     }
+
+
+def compact(plan):
+    """a run written out small enough to be read: world shape, controller mix, switches, the first operations"""
+    sp, rs = plan["spec"], plan["run"]
+    first = []
+    for k in sorted(plan["ops"], key=int)[:3]:
+        for o in plan["ops"][k][:3]:
+            first.append({"t": int(k), **{x: o[x] for x in o if x in ("k", "i", "v", "a", "what", "station", "charger", "value", "site", "n")}})
+    return {"network": sp["network"]["kind"], "step_s": sp["sim"]["timestep_duration_seconds"], "start": sp["sim"]["start_time"],
+            "cancel_s": sp["sim"]["request_cancel_time_seconds"], "search_res": sp["sim"]["sim_h3_search_resolution"],
+            "fleets": sorted(sp["fleets"]) if sp.get("fleets") else None, "humans": sum(1 for v in sp["vehicles"] if v.get("schedule")),
+            "mech": sorted({v["mech"] for v in sp["vehicles"]}), "prices": (sp["prices"]["by"], len(sp["prices"]["rows"])) if sp.get("prices") else None,
+            "generators": rs.get("generators"), "buggify": rs.get("buggify"), "lazy": rs.get("lazy"), "p_ext": rs.get("p_ext"),
+            "adversary": {k: v for k, v in (rs.get("adv") or {}).items() if k in ("p_instr", "p_hostile", "kinds")},
+            "operations_total": sum(len(v) for v in plan["ops"].values()), "first_operations": first[:6]}
 
 
 def get_driver(prop):
@@ -260,7 +277,7 @@ def check(prop, tier="quick", base_seed=None, workers=None, n_override=None, wal
           f"sim_hours={cov.get('simulated_hours', 0):.1f} states={cov.get('distinct_abstract_states')} violations={n_viol} "
           f"aborted={len(aborted)} wall={wall:.1f}s", file=out)
     if aborted:
-        print(f"{prop}: first aborted run (seed {aborted[0]['seed']}): {aborted[0]['aborted'][-400:]}", file=out)
+        print(f"{prop}: {len(aborted)} runs aborted by an exception escaping HIVE; first (seed {aborted[0]['seed']}): {aborted[0]['aborted'].strip().splitlines()[-1][:200]}", file=out)
     zero = [p for p, c in (cov.get("probes") or {}).items() if c == 0]
     if zero:
         print(f"{prop}: WARNING probes stuck at zero: {zero}", file=out)
